@@ -117,6 +117,52 @@ example : parseBytes [81, 81, 61, 61] = some [65] := by decide                  
 example : parseBytes [81, 81] = some [65] := by decide                                        -- "QQ"
 example : (decodeRequest true [] [⟨1, true, [97]⟩, ⟨1, true, [98]⟩] []).get 1 = [[97], [98]] := by decide
 
+/-- **enum numbers are open**: every int32 number, written in decimal, is accepted for every
+enum and converted to exactly that number — whether or not the enum declares a value for it
+(proto3 enums are open; the number is the only URL spelling of such a value). -/
+theorem enum_number_open (names : List (Bytes × Int)) (v : Int)
+    (hmin : (⟨true, 32⟩ : IntKind).min ≤ v) (hmax : v ≤ (⟨true, 32⟩ : IntKind).max) :
+    parseEnum names (printInt v) = some v := by
+  simp only [parseEnum, parseInt_print ⟨true, 32⟩ v hmin hmax]
+
+/-- **enum names**: a text that is not a number is looked up among the declared names and
+converted to the number declared for it (the first declaration of that name). -/
+theorem enum_name_exact (names : List (Bytes × Int)) (raw : Bytes) (v : Int)
+    (hnum : parseInt ⟨true, 32⟩ raw = none) (hl : lookupName names raw = some v) :
+    parseEnum names raw = some v := by
+  simp only [parseEnum, hnum, hl]
+
+/-- **no coercion**: an accepted enum text is an int32 literal (or `null`) denoting the result, or
+exactly one of the declared names; anything else — a misspelt or differently cased name, a
+fraction, a number out of the int32 range — is refused. -/
+theorem enum_no_coercion (names : List (Bytes × Int)) (raw : Bytes) (v : Int)
+    (h : parseEnum names raw = some v) :
+    parseInt ⟨true, 32⟩ raw = some v ∨ (∃ p ∈ names, p.1 = raw ∧ p.2 = v) := by
+  simp only [parseEnum] at h
+  cases hp : parseInt ⟨true, 32⟩ raw with
+  | some x => rw [hp] at h; simp at h; exact Or.inl (by rw [h])
+  | none =>
+    rw [hp] at h
+    simp only at h
+    right
+    induction names with
+    | nil => simp [lookupName] at h
+    | cons q rest ih =>
+      obtain ⟨n, w⟩ := q
+      simp only [lookupName] at h
+      split at h
+      · rename_i hn
+        injection h with h
+        exact ⟨(n, w), by simp, by simpa using hn, h⟩
+      · obtain ⟨p, hp1, hp2⟩ := ih h
+        exact ⟨p, by simp [hp1], hp2⟩
+
+/-- string fields receive the text itself. -/
+theorem string_exact (raw : Bytes) : parseString raw = raw := rfl
+
+example : parseEnum [([65], 1), ([66, 67], 2)] [55] = some 7 ∧ parseEnum [([65], 1), ([66, 67], 2)] [66, 67] = some 2 ∧
+    parseEnum [([65], 1), ([66, 67], 2)] [98, 99] = none ∧ parseEnum [([65], 1)] [49, 46, 53] = none := by decide
+
 end Larking.Props.C03
 
 #print axioms Larking.Props.C03.translator_complete
@@ -128,3 +174,7 @@ end Larking.Props.C03
 #print axioms Larking.Props.C03.untouched_fields
 #print axioms Larking.Props.C03.singular_field
 #print axioms Larking.Props.C03.repeated_field
+#print axioms Larking.Props.C03.enum_number_open
+#print axioms Larking.Props.C03.enum_name_exact
+#print axioms Larking.Props.C03.enum_no_coercion
+#print axioms Larking.Props.C03.string_exact
